@@ -1,5 +1,6 @@
 use std::collections::{HashMap, HashSet};
 use std::path::Path;
+use std::sync::atomic::{AtomicBool, AtomicI64, Ordering};
 use std::sync::{Mutex, MutexGuard};
 
 use rusqlite::Connection;
@@ -27,8 +28,9 @@ const MIGRATIONS: &[&[&str]] = &[
 
 pub struct Cache {
     conn: Mutex<Connection>,
-    refresh_interval: i64,
-    ignore_prerelease: bool,
+    // Replaced when the client answers the configuration request (see `configure`)
+    refresh_interval: AtomicI64,
+    ignore_prerelease: AtomicBool,
 }
 
 impl Cache {
@@ -49,8 +51,8 @@ impl Cache {
 
         let cache = Self {
             conn: Mutex::new(conn),
-            refresh_interval,
-            ignore_prerelease,
+            refresh_interval: AtomicI64::new(refresh_interval),
+            ignore_prerelease: AtomicBool::new(ignore_prerelease),
         };
 
         cache.create_schema()?;
@@ -305,6 +307,13 @@ impl Cache {
 }
 
 impl VersionStorer for Cache {
+    fn configure(&self, refresh_interval: i64, ignore_prerelease: bool) {
+        self.refresh_interval
+            .store(refresh_interval, Ordering::Relaxed);
+        self.ignore_prerelease
+            .store(ignore_prerelease, Ordering::Relaxed);
+    }
+
     fn get_latest_version(
         &self,
         registry_type: RegistryType,
@@ -337,12 +346,13 @@ impl VersionStorer for Cache {
         }
 
         // Find the semantically highest version
+        let ignore_prerelease = self.ignore_prerelease.load(Ordering::Relaxed);
         let latest = versions
             .into_iter()
             .filter_map(|v| {
                 let parsed = crate::version::semver::parse_version(&v)?;
                 // Skip prerelease versions if ignore_prerelease is enabled
-                if self.ignore_prerelease && !parsed.pre.is_empty() {
+                if ignore_prerelease && !parsed.pre.is_empty() {
                     return None;
                 }
                 Some((v, parsed))
@@ -451,7 +461,7 @@ impl VersionStorer for Cache {
 
     fn get_packages_needing_refresh(&self) -> Result<Vec<PackageId>, CacheError> {
         let now = Self::current_timestamp_ms();
-        let threshold = now - self.refresh_interval;
+        let threshold = now.saturating_sub(self.refresh_interval.load(Ordering::Relaxed));
 
         let conn = self.lock_conn()?;
         // Exclude packages marked as not found to avoid repeated fetch attempts
